@@ -355,6 +355,24 @@ fn run(ctx: &mut Ctx) {
         let mut b = base.clone();
         b.insert(0, sup.clone());
         inject(ctx, run, "wire bank duplicated: [suppressed, long]", b, true);
+        // every ordered pair of two banks with the same name out of {long, short (<= delay), suppressed 16-byte}
+        let long = base[wi].clone();
+        let forms = [("long", long.clone()), ("short", short.clone()), ("suppressed", sup.clone())];
+        for (n1, f1) in &forms {
+            for (n2, f2) in &forms {
+                for gap in [false, true] {
+                    let mut b = base.clone();
+                    b.remove(wi);
+                    b.insert(0, f1.clone());
+                    if gap {
+                        b.push(f2.clone());
+                    } else {
+                        b.insert(1, f2.clone());
+                    }
+                    inject(ctx, run, &format!("wire bank duplicated: [{}, {}]", n1, n2), b, true);
+                }
+            }
+        }
         // a single suppressed packet is fine
         let mut b = base.clone();
         b.remove(wi);
@@ -440,6 +458,44 @@ fn run(ctx: &mut Ctx) {
             } else {
                 ctx.count("no PadWing board differs between the epochs (injection skipped)");
             }
+        }
+    });
+    // ---- history independence: the same banks under run A, then under run B on the other side of the pad-map
+    // re-arrangement (and back): every build is still compared slot by slot with the oracle of *its* run
+    ctx.cases("run-history", ctx.tier.pick(32, 400), |ctx, i, rng| {
+        let seq: Vec<u32> = match i % 4 {
+            0 => vec![u32::MAX, 11084, u32::MAX, 9500, 11084],
+            1 => vec![9500, 10418, 9500, 12000],
+            2 => vec![11500, u32::MAX, 10417, 10418],
+            _ => vec![10417, 10418, 10417, 11084, 9277],
+        };
+        for r in &seq {
+            get(*r, &mut cache);
+        }
+        // one board (all of its pads in one chip) + a few wires, identical raw data for every run of the sequence
+        let bname = crate::refs::PWB_BOARDS[(i as usize * 7) % 71].0;
+        for run in seq {
+            let (cal, inv) = cache.get(&run).unwrap();
+            // the pads this board serves in this run (if installed)
+            let mut pads = BTreeMap::new();
+            'outer: for c in 0..32 {
+                for r in 0..576 {
+                    if inv.pad[c][r].0 == bname && inv.pad[c][r].3 == 1 {
+                        pads.insert((c, r), (0..140).map(|k| 1725 + ((k * 7 + r) % 50) as i16).collect::<Vec<i16>>());
+                        if pads.len() >= 12 {
+                            break 'outer;
+                        }
+                    }
+                }
+            }
+            let mut wires = BTreeMap::new();
+            for k in 0..3 {
+                wires.insert((i as usize * 3 + k * 17) % 256, (0..160).map(|j| 3000 - (j % 13) as i16).collect::<Vec<i16>>());
+            }
+            let ev = Ev { wires, suppressed: vec![], pads, ts: run ^ 5 };
+            let banks = banks_of(inv, &ev, rng);
+            check_event(ctx, cal, &ev, &banks);
+            ctx.count("builds in run sequences across the map epochs");
         }
     });
     // ---- hook-free variant: a single pulse identifies its slot through avalanches()
